@@ -420,11 +420,11 @@ func run() int {
 		}
 		opts := &interp.Options{Workers: *flagWorkers, Tier: tier, Seed: seed, Trace: *flagVerbose, MaxPaths: *flagMaxPaths}
 		opts.Solver.Timeout = 10 * time.Second
-		dl := 10 * time.Minute
+		dl := 20 * time.Minute
 		if tier == 1 {
 			opts.Solver.Timeout = 60 * time.Second
 			opts.Solver.Cross = true
-			dl = 60 * time.Minute
+			dl = 120 * time.Minute
 		}
 		if *flagSolverTO != 0 {
 			opts.Solver.Timeout = *flagSolverTO
